@@ -5,7 +5,10 @@
 use std::{env, fs, path::PathBuf};
 
 fn main() {
-    let src = "/repo/fclones/src/semaphore.rs";
+    println!("cargo:rerun-if-env-changed=VERIF_REPO");
+    let repo = env::var("VERIF_REPO").unwrap_or_else(|_| "/repo".to_string());
+    let src = format!("{repo}/fclones/src/semaphore.rs");
+    let src = src.as_str();
     println!("cargo:rerun-if-changed={src}");
     println!("cargo:rerun-if-changed=build.rs");
     let text = fs::read_to_string(src).expect("read semaphore.rs");
